@@ -229,7 +229,8 @@ def r18_5(chk, P):
 
 
 def run(chk, P):
-    E = k3.Effects(P)
+    E = getattr(P, '_effects', None) or k3.Effects(P)
+    P._effects = E
     nsites = r18_1(chk, P, E)
     chk.floor('R18.1', 250)
     nb, ni = r18_2_count(P)
